@@ -14,6 +14,7 @@ Record Inv_p (st : pstate) (m : nat) : Prop := mkInvP {
   ip_m : (acked st <= m)%nat /\ (m <= length (units st))%nat;
   ip_m2 : todo st <> [] -> m = length (units st);
   ip_m3 : forall u, In u (skipn m (units st)) -> fst u = walcur st;
+  ip_seal : sealed st = walcur st -> m = length (units st);
   ip_q : forall f, img_cells (pfs st) f = cells_of (units_of f (firstn m (units st)));
   ip_wdur : (forall u, In u (units st) -> nflushed_s st < fst u -> In (Wal (fst u)) (dur (pfs st)))
             /\ (todo st <> [] -> In (Wal (walcur st)) (dur (pfs st)));
@@ -70,20 +71,23 @@ Qed.
 Lemma raise_m : forall st m, Inv_c st -> Inv_p st m ->
   log_synced (pfs st) (Wal (walcur st)) = true -> Inv_p st (length (units st)).
 Proof.
-  intros st m I P Hl.
+  intros st m I P Hl. destruct (ic_order st I) as [Ho1 [Ho2 Ho3]].
+  destruct (N.eq_dec (nflushed_s st) (walcur st)) as [Heq|Hneq].
+  { assert (Hse : sealed st = walcur st) by lia. rewrite <- (ip_seal st m P Hse). exact P. }
   assert (Hd : In (Wal (walcur st)) (dir (pfs st))).
-  { apply (ic_wal_dir st I); [destruct (ic_order st I); lia|lia]. }
+  { apply (ic_wal_dir st I); lia. }
   destruct (inv_c_wal_cells st _ I Hd) as [[_ Hw]|[_ [_ [Hz|Hz]]]].
-  - destruct P as [[Pa Pb] P2 P3 Pq Pw Pm Pt Pc Pp Pv]. constructor; try assumption.
+  - destruct P as [[Pa Pb] P2 P3 Ps Pq Pw Pm Pt Pc Pp Pv]. constructor; try assumption.
     + split; lia.
     + intros _. reflexivity.
     + rewrite skipn_all. intros u [].
+    + intros _. reflexivity.
     + intro f. rewrite firstn_all. destruct (N.eq_dec f (walcur st)) as [->|Hn].
       * unfold img_cells. destruct (log_synced_img _ _ Hl) as [E|[E1 E2]].
         -- rewrite E. exact Hw.
         -- rewrite E1. rewrite E2 in Hw. cbn in Hw. exact Hw.
       * rewrite (Pq f). rewrite (units_of_firstn f (walcur st) _ m P3 Hn). reflexivity.
-  - destruct (ic_order st I). lia.
+  - lia.
   - assert (Hs : skipn m (units st) = []).
     { destruct (skipn m (units st)) as [|u l] eqn:E; [reflexivity|]. exfalso.
       assert (Hu : In u (skipn m (units st))) by (rewrite E; left; reflexivity).
@@ -105,8 +109,8 @@ Lemma inv_p_frame : forall st m s',
   (forall f, exists rest, cur s' (Vlog f) = cur (pfs st) (Vlog f) ++ rest) ->
   Inv_p (set_fs st s') m.
 Proof.
-  intros st m s' [Pm1 P2 P3 Pq Pw Pm Pt Pc Pp Pv] Hdur Himg Htab Hvd Hvc.
-  constructor; cbn [set_fs pfs units pend todo acked walcur vlogcur nflushed nflushed_s live live_s]; try assumption.
+  intros st m s' [Pm1 P2 P3 Ps Pq Pw Pm Pt Pc Pp Pv] Hdur Himg Htab Hvd Hvc.
+  constructor; cbn [set_fs pfs units pend todo acked walcur vlogcur nflushed nflushed_s live live_s sealed]; try assumption.
   - intro f. unfold img_cells. rewrite Himg. apply Pq.
   - rewrite Hdur. exact Pw.
   - rewrite Hdur, Himg. exact Pm.
@@ -120,7 +124,7 @@ Proof.
       exists (rest ++ rest'). rewrite Hr', Hr, app_assoc. reflexivity.
 Qed.
 
-Ltac psimp := cbn [pfs units pend todo acked walcur vlogcur nflushed nflushed_s live live_s usedtabs
+Ltac psimp := cbn [pfs units pend todo acked walcur vlogcur nflushed nflushed_s live live_s usedtabs sealed
                    set_fs apply_event dir dur cur img sized upd fname_eqb] in *.
 
 Lemma not_in_tabs : forall id (t1 t2 : tabs) x, tab_mem id t1 = false -> tab_mem id t2 = false ->
@@ -199,10 +203,10 @@ Lemma inv_p_begin : forall c st m cells st', fixed_sync c -> Inv_c st -> Inv_p s
   pstep c st (PBegin cells) = Some st' -> exists m', Inv_p st' m'.
 Proof.
   intros c st m cells st' [Hs [Hf Hz]] I P H. cbn [pstep] in H. apply ok_some in H. destruct H as [G ->].
-  rewrite !Bool.andb_true_iff in G. destruct G as [[[[[[[[[G1 G2] G3] G4] G5] G6] G7] G8] G9] G10].
-  rewrite Hs in G8. rewrite Hf in G9. cbn [imp negb orb] in G8, G9. apply memf_In in G9.
+  rewrite !Bool.andb_true_iff in G. destruct G as [[[[[[[[[[G1 G1s] G2] G3] G4] G5] G6] G7] G8] G9] G10].
+  apply N.ltb_lt in G1s. rewrite Hs in G8. rewrite Hf in G9. cbn [imp negb orb] in G8, G9. apply memf_In in G9.
   pose proof (raise_m st m I P G8) as P'. exists (length (units st)).
-  destruct P' as [Pm1 P2 P3 Pq [Pw1 Pw2] Pm Pt Pc Pp Pv]. constructor; psimp; try assumption.
+  destruct P' as [Pm1 P2 P3 Ps Pq [Pw1 Pw2] Pm Pt Pc Pp Pv]. constructor; psimp; try assumption.
   - intros _. reflexivity.
   - split; [exact Pw1|intros _; exact G9].
   - intros cl [Hc|[_ Hc]]; [apply Pp; left; exact Hc|].
@@ -215,19 +219,29 @@ Proof.
   intros c st m st' [Hs [Hf Hz]] I P H. cbn [pstep] in H. apply ok_some in H. destruct H as [G ->].
   rewrite !Bool.andb_true_iff in G. destruct G as [G1 G2]. rewrite Hs in G2. cbn [imp negb orb] in G2.
   pose proof (raise_m st m I P G2) as P'. exists (length (units st)).
-  destruct P' as [Pm1 P2 P3 Pq Pw Pm Pt Pc Pp Pv]. constructor; psimp; try assumption. split; lia.
+  destruct P' as [Pm1 P2 P3 Ps Pq Pw Pm Pt Pc Pp Pv]. constructor; psimp; try assumption. split; lia.
+Qed.
+
+Lemma inv_p_seal : forall c st m st', fixed_sync c -> Inv_c st -> Inv_p st m ->
+  pstep c st PSeal = Some st' -> exists m', Inv_p st' m'.
+Proof.
+  intros c st m st' [Hs [Hf Hz]] I P H. cbn [pstep] in H. apply ok_some in H. destruct H as [G ->].
+  rewrite !Bool.andb_true_iff in G. destruct G as [[G1 G2] G3]. rewrite Hs in G3. cbn [imp negb orb] in G3.
+  pose proof (raise_m st m I P G3) as P'. exists (length (units st)).
+  destruct P' as [Pm1 P2 P3 Ps Pq Pw Pm Pt Pc Pp Pv]. constructor; psimp; try assumption.
+  intros _. reflexivity.
 Qed.
 
 Lemma inv_p_syncdir : forall c st m st', Inv_c st -> Inv_p st m ->
   pstep c st (PE SyncDir) = Some st' -> exists m', Inv_p st' m'.
 Proof.
   intros c st m st' I P H. cbn [pstep] in H. inversion H; subst; clear H. exists m.
-  destruct P as [Pm1 P2 P3 Pq [Pw1 Pw2] [Pm Pm'] Pt Pc Pp [Pv1 Pv2]].
-  destruct (ic_order st I) as [Ho1 Ho2].
+  destruct P as [Pm1 P2 P3 Ps Pq [Pw1 Pw2] [Pm Pm'] Pt Pc Pp [Pv1 Pv2]].
+  destruct (ic_order st I) as [Ho1 [Ho2 Ho3]].
   constructor; psimp; try assumption.
   - split.
     + intros u Hu Hlt. apply (ic_wal_dir st I); [exact Hlt|]. apply (ic_units st I u Hu).
-    + intros _. apply (ic_wal_dir st I); lia.
+    + intros Hn. pose proof (ic_seal st I Hn) as Hsl. apply (ic_wal_dir st I); lia.
   - split; [apply (ic_man st I)|exact Pm'].
   - intros x Hx. destruct (Pt x Hx) as [H1 [H2 H3]]. split; [exact H2|split; [exact H2|exact H3]].
   - intros cl Hc p Hp. destruct (Pp cl Hc p Hp) as [H1 H2]. split; [apply Pv1; exact H1|exact H2].
@@ -243,12 +257,13 @@ Proof.
   - (* WAL *)
     assert (Hw : wal_cells (cur (pfs st) (Wal f)) = cells_of (units_of f (units st))).
     { destruct (inv_c_wal_cells st f I G1) as [[_ Hw]|[Hz _]]; [exact Hw|congruence]. }
-    destruct P as [[Pa Pb] P2 P3 Pq Pw Pm Pt Pc Pp Pv].
+    destruct P as [[Pa Pb] P2 P3 Ps Pq Pw Pm Pt Pc Pp Pv].
     exists (if f =? walcur st then length (units st) else m).
     constructor; psimp; try assumption.
     + destruct (f =? walcur st); split; lia.
     + intro Hn. destruct (f =? walcur st); [reflexivity|apply P2; exact Hn].
     + destruct (f =? walcur st); [rewrite skipn_all; intros u []|exact P3].
+    + intro Hse. destruct (f =? walcur st); [reflexivity|apply Ps; exact Hse].
     + intro g. unfold img_cells. psimp. unfold upd. cbn [fname_eqb]. destruct (g =? f) eqn:Egf.
       * apply N.eqb_eq in Egf. subst g. rewrite Hw. destruct (f =? walcur st) eqn:Ef.
         -- rewrite firstn_all. reflexivity.
@@ -257,7 +272,7 @@ Proof.
         apply N.eqb_eq in Ef. subst f. apply N.eqb_neq in Egf.
         rewrite firstn_all, (units_of_firstn g (walcur st) _ m P3 Egf). reflexivity.
   - (* vlog *)
-    exists m. destruct P as [Pm1 P2 P3 Pq Pw Pm Pt Pc Pp [Pv1 Pv2]]. constructor; psimp; try assumption.
+    exists m. destruct P as [Pm1 P2 P3 Ps Pq Pw Pm Pt Pc Pp [Pv1 Pv2]]. constructor; psimp; try assumption.
     + intros cl Hc p Hp. destruct (Pp cl Hc p Hp) as [H1 [vi [H2 H3]]]. split; [exact H1|].
       unfold upd. cbn [fname_eqb]. destruct (vp_fid p =? f) eqn:E; [|exists vi; split; assumption].
       apply N.eqb_eq in E. rewrite E in *. destruct (Pv2 f vi H2) as [rest Hr].
@@ -267,13 +282,13 @@ Proof.
       * apply N.eqb_eq in E. subst g. intro Hi. inversion Hi. exists []. rewrite app_nil_r. reflexivity.
       * apply Pv2.
   - (* table *)
-    exists m. destruct P as [Pm1 P2 P3 Pq Pw Pm Pt Pc Pp Pv]. constructor; psimp; try assumption.
+    exists m. destruct P as [Pm1 P2 P3 Ps Pq Pw Pm Pt Pc Pp Pv]. constructor; psimp; try assumption.
     intros x Hx. destruct (Pt x Hx) as [H1 [H2 H3]]. split; [exact H1|split; [exact H2|]].
     unfold upd. cbn [fname_eqb]. destruct (fst x =? id) eqn:E; [|exact H3].
     apply N.eqb_eq in E. rewrite E. reflexivity.
   - (* MANIFEST *)
-    exists m. destruct P as [Pm1 P2 P3 Pq [Pw1 Pw2] [Pm Pm'] Pt Pc Pp Pv].
-    destruct (ic_order st I) as [Ho1 Ho2].
+    exists m. destruct P as [Pm1 P2 P3 Ps Pq [Pw1 Pw2] [Pm Pm'] Pt Pc Pp Pv].
+    destruct (ic_order st I) as [Ho1 [Ho2 Ho3]].
     constructor; psimp; try assumption.
     + split; [|exact Pw2]. intros u Hu Hlt. apply Pw1; [exact Hu|lia].
     + split; [exact Pm|]. exists (cur (pfs st) Manifest). split; [reflexivity|apply (ic_man st I)].
@@ -293,13 +308,14 @@ Lemma inv_p_wal_create : forall c st m f st', fixed_sync c -> Inv_c st -> Inv_p 
   pstep c st (PE (Create (Wal f))) = Some st' -> exists m', Inv_p st' m'.
 Proof.
   intros c st m f st' [Hs [Hf Hz]] I P H. cbn [pstep] in H. apply ok_some in H. destruct H as [G ->].
-  rewrite !Bool.andb_true_iff in G. destruct G as [[[[G1 G2] G3] G4] G5].
+  rewrite !Bool.andb_true_iff in G. destruct G as [[[[[G1 G1s] G2] G3] G4] G5].
   apply N.eqb_eq in G1. apply is_nil_true in G2. apply Bool.negb_true_iff in G3.
   rewrite Hs in G5. cbn [imp negb orb] in G5.
   pose proof (raise_m st m I P G5) as P'. exists (length (units st)).
-  destruct P' as [Pm1 P2 P3 Pq [Pw1 Pw2] Pm Pt Pc Pp [Pv1 Pv2]].
+  destruct P' as [Pm1 P2 P3 Ps Pq [Pw1 Pw2] Pm Pt Pc Pp [Pv1 Pv2]].
   constructor; psimp; rewrite ?G3; psimp; try assumption.
   - rewrite skipn_all. intros u [].
+  - intros _. reflexivity.
   - intro g. unfold img_cells. psimp. unfold upd. cbn [fname_eqb]. destruct (g =? f) eqn:E.
     + apply N.eqb_eq in E. subst g. rewrite firstn_all. rewrite units_of_none; [reflexivity|].
       intros u Hu. destruct (ic_units st I u Hu) as [_ Hle]. lia.
@@ -314,7 +330,7 @@ Lemma inv_p_vlog_create : forall c st m f st', Inv_p st m ->
 Proof.
   intros c st m f st' P H. cbn [pstep] in H. apply ok_some in H. destruct H as [G ->].
   rewrite !Bool.andb_true_iff in G. destruct G as [[G1 G2] G3]. apply Bool.negb_true_iff in G2.
-  exists m. destruct P as [Pm1 P2 P3 Pq Pw Pm Pt Pc Pp [Pv1 Pv2]].
+  exists m. destruct P as [Pm1 P2 P3 Ps Pq Pw Pm Pt Pc Pp [Pv1 Pv2]].
   assert (Hfresh : forall g, In (Vlog g) (dur (pfs st)) -> g <> f).
   { intros g Hg E. subst g. apply Pv1 in Hg. apply memf_false in G2. contradiction. }
   constructor; psimp; rewrite ?G2; psimp; try assumption.
@@ -331,7 +347,7 @@ Lemma inv_p_sst_create : forall c st m id st', Inv_p st m ->
 Proof.
   intros c st m id st' P H. cbn [pstep] in H. apply ok_some in H. destruct H as [G ->].
   rewrite !Bool.andb_true_iff in G. destruct G as [G1 G2]. apply Bool.negb_true_iff in G2.
-  exists m. destruct P as [Pm1 P2 P3 Pq Pw Pm Pt Pc Pp [Pv1 Pv2]].
+  exists m. destruct P as [Pm1 P2 P3 Ps Pq Pw Pm Pt Pc Pp [Pv1 Pv2]].
   assert (Hfr : forall x, In x (live st) \/ In x (live_s st) -> fst x <> id).
   { intros x Hx E. subst id. destruct (Pt x Hx) as [_ [H2 _]]. apply memf_false in G2. contradiction. }
   constructor; psimp; rewrite ?G2; psimp; try assumption.
@@ -347,14 +363,16 @@ Lemma inv_p_wal_append : forall c st m f x st', Inv_c st -> Inv_p st m ->
 Proof.
   intros c st m f x st' I P H. cbn [pstep] in H. destruct (todo st) as [|y rest] eqn:Et; [discriminate|].
   apply ok_some in H. destruct H as [G Hst]. exists m.
-  destruct P as [[Pa Pb] P2 P3 Pq [Pw1 Pw2] Pm Pt Pc Pp Pv].
+  destruct P as [[Pa Pb] P2 P3 Ps Pq [Pw1 Pw2] Pm Pt Pc Pp Pv].
   assert (Hne : todo st <> []) by (rewrite Et; discriminate).
-  pose proof (P2 Hne) as Hm. destruct (ic_order st I) as [Ho1 Ho2].
+  pose proof (P2 Hne) as Hm. destruct (ic_order st I) as [Ho1 [Ho2 Ho3]].
+  pose proof (ic_seal st I Hne) as Hsl.
   destruct rest as [|z rest]; subst st'.
   - constructor; psimp; try assumption.
     + rewrite app_length. cbn [length]. split; lia.
     + intro Hn. contradiction.
     + rewrite Hm, skipn_snoc_len. intros u [<-|[]]. reflexivity.
+    + intro Hse. lia.
     + intro g. rewrite firstn_snoc_le; [apply Pq|lia].
     + split; [|intro Hn; contradiction]. intros u Hu Hlt. apply in_app_or in Hu.
       destruct Hu as [Hu|[<-|[]]]; [apply Pw1; assumption|]. cbn [fst]. apply Pw2. exact Hne.
@@ -374,7 +392,7 @@ Lemma inv_p_manifest : forall c st m x st', fixed_sync c -> Inv_c st -> Inv_p st
 Proof.
   intros c st m x st' [Hs [Hf Hz]] I P H. cbn [pstep] in H. destruct x as [| | |cs|]; try discriminate.
   destruct (apply_changes (live st) cs) as [live'|] eqn:Ea; [|discriminate]. exists m.
-  destruct P as [Pm1 P2 P3 Pq Pw Pm Pt Pc Pp Pv].
+  destruct P as [Pm1 P2 P3 Ps Pq Pw Pm Pt Pc Pp Pv].
   destruct (is_nil (deletes cs)) eqn:En.
   - destruct cs as [|[id l|] [|]]; try discriminate; destruct l; try discriminate.
     apply ok_some in H. destruct H as [G ->].
@@ -398,7 +416,7 @@ Qed.
 Theorem inv_p_step : forall c st m pe st', fixed_sync c -> Inv_c st -> Inv_p st m ->
   pstep c st pe = Some st' -> exists m', Inv_p st' m'.
 Proof.
-  intros c st m pe st' Hc I P H. destruct pe as [e|cells|].
+  intros c st m pe st' Hc I P H. destruct pe as [e|cells| |].
   - destruct e as [f|f|f x|f|f|f|a b|].
     + destruct f; [eapply inv_p_wal_create|eapply inv_p_vlog_create|eapply inv_p_sst_create|discriminate]; eassumption.
     + exists m. eapply inv_p_frames; [exact P|exact H|constructor].
@@ -414,15 +432,17 @@ Proof.
     + eapply inv_p_syncdir; eassumption.
   - eapply inv_p_begin; eassumption.
   - eapply inv_p_ack; eassumption.
+  - eapply inv_p_seal; eassumption.
 Qed.
 
 Lemma inv_p_init : forall c, fixed_sync c -> Inv_p (init c) 0.
 Proof.
   intros c [_ [Hf _]]. constructor;
-    cbn [init pfs units pend todo acked walcur vlogcur nflushed nflushed_s live live_s init_fs dir dur cur img sized].
+    cbn [init pfs units pend todo acked walcur vlogcur nflushed nflushed_s live live_s sealed init_fs dir dur cur img sized].
   - split; lia.
   - intro Hn. contradiction.
   - intros u [].
+  - intro Hn. discriminate.
   - intro f. reflexivity.
   - split; [intros u []|intro Hn; contradiction].
   - rewrite Hf. split; [left; reflexivity|]. exists []. split; reflexivity.
@@ -454,8 +474,8 @@ Qed.
 Theorem power_loss_recovers : forall c st m, fixed_sync c -> Inv_c st -> Inv_p st m ->
   exists R, power_loss_result c st = Some R /\ refines (map fst (cells_of (firstn m (units st)))) R.
 Proof.
-  intros c st m [Hs [Hf Hz]] I [[Pa Pb] P2 P3 Pq [Pw1 Pw2] [Pm [mi [Pmi Pmr]]] Pt [Pca Pcb] Pp [Pv1 Pv2]].
-  destruct (ic_order st I) as [Ho1 Ho2].
+  intros c st m [Hs [Hf Hz]] I [[Pa Pb] P2 P3 Ps Pq [Pw1 Pw2] [Pm [mi [Pmi Pmr]]] Pt [Pca Pcb] Pp [Pv1 Pv2]].
+  destruct (ic_order st I) as [Ho1 [Ho2 Ho3]].
   unfold power_loss_result, recover. cbn [power_loss dir cur].
   apply memf_In in Pm. rewrite Pm, Pmi, Pmr.
   rewrite (logs_ok_true c _ (or_introl Hz)).
@@ -480,7 +500,8 @@ Proof.
   { intros cl Hcl. apply In_cells_of in Hcl. destruct Hcl as [u [Hu Hc]]. unfold flushed_units in Hu.
     apply filter_In in Hu. destruct Hu as [Hu Hle]. apply N.leb_le in Hle.
     apply In_cells_of. exists u. split; [|exact Hc].
-    destruct (In_firstn_skipn _ _ m u Hu) as [Hin|Hin]; [exact Hin|]. pose proof (P3 u Hin). lia. }
+    destruct (In_firstn_skipn _ _ m u Hu) as [Hin|Hin]; [exact Hin|]. pose proof (P3 u Hin) as Hw.
+    assert (Hse : sealed st = walcur st) by lia. rewrite (Ps Hse), skipn_all in Hin. contradiction. }
   assert (Hsubm : forall cl, In cl (cells_of (firstn m (units st))) -> In cl (cells_of (units st))).
   { intros cl Hcl. apply In_cells_of in Hcl. destruct Hcl as [u [Hu Hc]]. apply In_cells_of. exists u.
     split; [eapply In_firstn_in; exact Hu|exact Hc]. }
